@@ -18,7 +18,9 @@
       maximal_piece c s p := exists pre post, s = pre ++ p ++ post /\ ~ In c p /\
                              (pre = [] \/ exists pre', pre = pre' ++ [c]) /\
                              (post = [] \/ exists post', post = c :: post')
-      files_read op cmd : the non-empty file names the command opens, in order:
+      files_read op cmd : the file names the command opens, in order, the null device /dev/null left out
+          (--no-database makes the book the null device; an EMPTY name is listed: since fix F24 it is a
+           file that cannot be opened, see [empty_name_is_error]):
           reg, bal, unresolved, totals, summary : book, log
           quantity, csv log, print              : log
           element-total x (x non-empty), csv database, csv database-resolved : book
@@ -107,3 +109,11 @@ Theorem command_success_whole_file :
                    lookup p (w_read_fault w) = None /\ snd (scan data NoFault) = ScanEOF.
 Proof. exact UnreadableCli.command_success_whole_file. Qed.
 Print Assumptions command_success_whole_file.
+
+(** fix F24: an empty file name is a file that cannot be opened (it used to stand for "nothing to read") *)
+Theorem empty_name_is_error :
+  forall (NM : Num) (w : world) (i : invocation) (op : options),
+  load w i = inr op -> In [] (files_read op (i_cmd i)) ->
+  out_status (run NM w i) <> Ok.
+Proof. exact UnreadableCli.empty_name_is_error. Qed.
+Print Assumptions empty_name_is_error.
